@@ -10,6 +10,7 @@ func init() {
 		ruleAggregations(r, "C19")
 		ruleLimitAutocut(r, "C19")
 		ruleFusions(r, "C19")
+		ruleFusionDefaults(r, "C19.DEFAULTS")
 		ruleMerge(r, "C19")
 		ruleKindFactories(r, "C19")
 		r.FloorCheck("C19.AGG", 30)
